@@ -27,7 +27,7 @@ import core
 
 RULE = ("energy files: header box sampled completely in the quick tier already (h '#' lines 0..13, '@' lines so that h+a >= 13 with "
         "emphasis on h+a = 13 and h = 13, 1..10 legends s0..s(m-1) interleaved with other '@' lines, legend texts from gmx energy "
-        "and random quote-free texts incl. commas/@/#/unicode, 0..50 (thorough 0..300) rows, tokens of arbitrary finite doubles (incl. subnormals, extremes, random bit patterns) written as %.6f / %12.6f / %.10g / %e / "
+        "and random quote-free texts incl. commas/@/#/unicode, long headers (legend texts up to 3000 characters, up to 400 extra '@' lines before and between the legends, up to 13 '#' lines of 500+ characters; header sizes around 512..65536 characters), 0..50 (thorough 0..300) rows, tokens of arbitrary finite doubles (incl. subnormals, extremes, random bit patterns) written as %.6f / %12.6f / %.10g / %e / "
         "ints / repr / %.17g / %.25g / %.40e / %.30f / %.60f / zero-padded, blank runs of spaces and tabs, with and without final newline); out-of-box files for the "
         "correspondence only (14+ '#' lines, short headers, 11-12 legends, duplicate / empty / unquoted legends, extra quotes, "
         "unbalanced quotes in skipped rows, ragged rows, '@' inside data, blank lines, other suffixes); grids: every buildable "
@@ -263,6 +263,147 @@ def gen_box(rng, quick, h=None, extra=None, m=None, nrows=None):
     col = rng.choice(names) if rng.random() < 0.9 else rng.choice(["Potential energy", "time", "s0", ""])
     return {"kind": "xvg", "name": "e.xvg", "lines": hashes + ats + lines, "nl": rng.random() < 0.85, "col": col, "csv": True,
             "tag": "box", "box": {"h": h, "a": len(ats), "legends": legends, "rows": rows}}
+
+
+LONG_ALPHA = "abcdefghijklmnopqrstuvwxyzABCDEFGHIJKLMNOPQRSTUVWXYZ0123456789 .,;:()[]{}-+*/=_@#'%&!?<>|~^$\\\t"
+HDR_POWERS = [512, 1024, 2048, 4096, 8192, 16384, 32768, 65536]
+
+
+def _loguniform(rng, lo, hi):
+    return int(round(math.exp(rng.uniform(math.log(lo), math.log(hi)))))
+
+
+def _ltext(rng, n, exotic=0.0):
+    """a quote-free text of exactly n characters"""
+    if n <= 0:
+        return ""
+    if exotic and n > 2 and rng.random() < exotic:
+        k = rng.randrange(n)
+        return _ltext(rng, k) + rng.choice(EXOTIC) + _ltext(rng, n - k - 1)
+    return "".join(rng.choice(LONG_ALPHA) for _ in range(n))
+
+
+def _long_path(rng, n):
+    """a '#' line of about n characters as gmx writes it for a deep working directory / long command line"""
+    head = rng.choice(["# Working dir:  ", "# Command line:  gmx energy -f ", "# Executable:   ", "#   gmx energy -f ", "# Data prefix:  "])
+    parts = []
+    size = len(head)
+    while size < n:
+        w = "".join(rng.choice("abcdefghijklmnopqrstuvwxyz0123456789_-.") for _ in range(rng.randint(3, 24)))
+        parts.append(w)
+        size += len(w) + 1
+    return (head + "/" + "/".join(parts))[:max(n, 1)].rstrip() or "#"
+
+
+def _hdr_chars(lines):
+    return sum(len(l) + 1 for l in lines)
+
+
+def gen_long_header(rng, quick, target=None, mode=None, legends_last=None):
+    """a file inside the box whose header (all '#' and '@' lines, line ends included) has `target` characters: long legend
+    texts (lengths log-uniform 1..3000), hundreds of other '@' lines before and between the legend lines, up to 13 very long
+    '#' lines.  One adjustable piece is sized so that the header ends exactly at `target` characters."""
+    mode = mode or rng.choice(["legends", "ats", "hashes", "mixed"])
+    free = target is None and mode in ("legends", "mixed") and rng.random() < 0.6     # legend lengths log-uniform 1..3000
+    if target is None:
+        target = _loguniform(rng, 400, 70000)
+    m = rng.choice([1, 2, 3, 5, 8, 10, 10])
+    h = rng.choice([0, 3, 12, 13, 13]) if mode != "hashes" else rng.choice([1, 5, 13, 13, 13])
+    budget = target
+    # '#' lines
+    if mode in ("hashes", "mixed") and h:
+        share = budget * (rng.uniform(0.6, 0.95) if mode == "hashes" else rng.uniform(0.1, 0.5))
+        w = [rng.random() + 0.05 for _ in range(h)]
+        hashes = [_long_path(rng, max(2, int(share * x / sum(w)))) for x in w]
+    else:
+        hashes = [_hash_line(rng) for _ in range(h)]
+    # legend texts
+    used, legends = set(), []
+    if free:
+        lens = [_loguniform(rng, 1, 3000) for _ in range(m)]
+        target = budget = max(budget, _hdr_chars(hashes) + sum(lens) + 16 * m + 30 * max(0, 13 - h - m) + _loguniform(rng, 2, 3000))
+    elif mode in ("legends", "mixed"):
+        share = max(m, (budget - _hdr_chars(hashes)) * (rng.uniform(0.7, 0.98) if mode == "legends" else rng.uniform(0.2, 0.6)))
+        w = [rng.random() ** 2 + 0.02 for _ in range(m)]
+        lens = [max(1, min(3000, int(share * x / sum(w)) - 16)) for x in w]
+    else:
+        lens = [_loguniform(rng, 1, 60) for _ in range(m)]
+    for n in lens:
+        for _ in range(50):
+            t = _ltext(rng, n, exotic=0.3) if n > 14 else _legend_text(rng, used)
+            if t not in used and t != "Time [ps]":
+                break
+        used.add(t)
+        legends.append(t)
+    leg_lines = [f'@ s{i} legend "{t}"' for i, t in enumerate(legends)]
+    # other '@' lines: enough to reach 13 header lines, then as many as the budget allows (up to a few hundred)
+    need = max(0, 13 - h - m)
+    others = [_at_line(rng) for _ in range(need)]
+    room = budget - _hdr_chars(hashes) - _hdr_chars(leg_lines) - _hdr_chars(others)
+    if mode in ("ats", "mixed") and room > 60:
+        n_lines = min(400, max(1, room // rng.choice([15, 30, 80, 200])))
+        per = room / n_lines
+        for _ in range(n_lines):
+            if room <= 60:
+                break
+            if per < 40 and rng.random() < 0.5:
+                l = _at_line(rng)
+            else:
+                l = "@" + _ltext(rng, max(1, int(per * rng.uniform(0.5, 1.5)) - 2))
+                if _LEG.match(l):
+                    l = "@x" + l[2:]
+            if len(l) + 1 > room - 2:
+                break
+            others.append(l)
+            room -= len(l) + 1
+    if room < 2 and hashes:
+        # overshoot (or no room for another line): shorten the longest '#' line so that an adjustable line of >= 2 characters fits
+        k = max(range(len(hashes)), key=lambda i: len(hashes[i]))
+        cut = min(len(hashes[k]) - 1, 2 - room + rng.randint(0, 20))
+        if cut > 0:
+            hashes[k] = hashes[k][:len(hashes[k]) - cut].rstrip() or "#"
+            room = budget - _hdr_chars(hashes) - _hdr_chars(leg_lines) - _hdr_chars(others)
+    # the adjustable piece: one more '@' line of exactly the missing length (at least "@" + newline = 2 characters)
+    if room >= 2:
+        others.append("@" + _ltext(rng, room - 2).replace("@ s", "@ x"))
+        if _LEG.match(others[-1]):
+            others[-1] = "@x" + others[-1][2:]
+    if legends_last is None:
+        legends_last = rng.random() < 0.5
+    if legends_last:
+        rng.shuffle(others)
+        ats = others + leg_lines
+    else:
+        rng.shuffle(others)
+        slots = sorted(rng.randint(0, len(others)) for _ in range(m))
+        ats, k = [], 0
+        for pos in range(len(others) + 1):
+            while k < m and slots[k] == pos:
+                ats.append(leg_lines[k])
+                k += 1
+            if pos < len(others):
+                ats.append(others[pos])
+    rows, lines = _gen_rows(rng, m, rng.choice([1, 2, 3, 5]))
+    names = ["Time [ps]"] + legends
+    header = hashes + ats
+    return {"kind": "xvg", "name": "e.xvg", "lines": header + lines, "nl": rng.random() < 0.85, "col": rng.choice(names), "csv": True,
+            "tag": "box", "long": {"mode": mode, "chars": _hdr_chars(header), "target": target, "legends_last": bool(legends_last)},
+            "box": {"h": h, "a": len(ats), "legends": legends, "rows": rows}}
+
+
+def long_header_cases(rng, quick):
+    """header sizes straddling the powers of two 512 .. 65536, every mode; then log-uniform sizes"""
+    powers = [4096, 8192] if quick else HDR_POWERS
+    deltas = [-3, 3] if quick else [-40, -1, 0, 1, 40]
+    for p in powers:
+        for mode in ("legends", "ats", "hashes", "mixed"):
+            for d in deltas:
+                yield gen_long_header(rng, quick, target=p + d, mode=mode, legends_last=True if quick else None)
+    if quick:
+        for p in (512, 1024, 2048, 16384, 32768, 65536):
+            yield gen_long_header(rng, quick, target=p + rng.choice([2, 5]), legends_last=True)
+    for _ in range(12 if quick else 400):
+        yield gen_long_header(rng, quick)
 
 
 MUT_FRAME = ["shift", "sort", "nan", "drop", "reverse", "none"]
@@ -545,6 +686,14 @@ def cases(ctx):
                 yield gen_box(rng, quick, h=h, extra=extra, m=m, nrows=rng.choice([1, 2, 4]))
     ctx.extra_cov["header_box"] = ("every h in 0..13 x m in %s x {h+a = max(13, h+m), +1, +4} generated at least once"
                                    % ("1..10" if not quick else "{1,3,10}"))
+    # 1b. long headers (still inside the box): header sizes around the powers of two 512 .. 65536
+    for c in long_header_cases(rng, quick):
+        yield c
+    ctx.extra_cov["long_headers"] = ("header sizes p-3 / p+3 for p in {4096, 8192} x {long legend texts, hundreds of '@' lines, 13 long '#' "
+                                     "lines, mixed}, one size next to each other power of two 512..65536, plus log-uniform sizes 400..70000"
+                                     if quick else
+                                     "header sizes p+d, p in {512..65536 powers of two}, d in {-40,-1,0,1,40} x {long legend texts, hundreds of "
+                                     "'@' lines, 13 long '#' lines, mixed}, plus 400 log-uniform sizes 400..70000")
     n_box = 700 if quick else 5000
     n_out = 400 if quick else 2500
     for i in range(n_box):
@@ -1274,6 +1423,12 @@ def compare(ctx, case, out, mouts):
     if n and lead == 0 and all(c is not None for row in t["cells"] for c in row):
         ctx.nt(("xvg", "\n".join(case["lines"]), case.get("nl", True)))
     b = case.get("box")
+    if case.get("long"):
+        lg = case["long"]
+        ctx.branch("longhdr:mode=" + lg["mode"])
+        ctx.branch("longhdr:chars<=%d" % next((p for p in HDR_POWERS + [1 << 20] if lg["chars"] <= p)))
+        ctx.branch("longhdr:legend_chars_max<=%d" % next(p for p in (16, 64, 256, 1024, 4096) if max(map(len, b["legends"])) <= p))
+        ctx.branch("longhdr:at_lines<=%d" % next(p for p in (16, 64, 256, 1024, 4096) if b["a"] <= p))
     if b:
         ctx.branch(f"box:h={b['h']}")
         ctx.branch(f"box:legends={len(b['legends'])}")
